@@ -24,12 +24,15 @@ def has_marker(rsmi):
     return False
 
 
+FORCE_MAPS = [False]
+
+
 def respell(smiles, rnd):
     from rdkit import Chem
     m = chem.mol(smiles)
     if m is None:
         return smiles
-    if rnd.random() < 0.35:
+    if FORCE_MAPS[0] or rnd.random() < 0.35:
         idx = list(range(1, m.GetNumAtoms() + 1))
         rnd.shuffle(idx)
         for a, i in zip(m.GetAtoms(), idx):
@@ -70,9 +73,9 @@ def outcome(row):
     return ("determined", row.get("solved_by"), tuple(tuple(sorted(d.items())) for d in added(row)))
 
 
-def judge(base, rnd, n):
+def judge(base, rnd, n, **cfg):
     vs = [base] + [variant(base, rnd) for _ in range(n)] + [variant(base, rnd, permute=True, spell=False), variant(base, rnd, permute=False, spell=True)]
-    rows_v = P.rebalance(vs)
+    rows_v = P.rebalance(vs, **cfg)
     if len(rows_v) != len(vs):
         return "variants of %r: %d rows for %d inputs" % (base, len(rows_v), len(vs))
     outs = [outcome(r) for r in rows_v]
@@ -119,6 +122,12 @@ def _job(item):
 def replay(d):
     inp = d["input"]
     r = inp["reaction"]
+    if inp.get("kind") == "variants-keep-maps":
+        FORCE_MAPS[0] = True
+        try:
+            return judge(r, _rng(inp.get("seed", 0), "aam|" + r), 4, remove_aam=False) is not None
+        finally:
+            FORCE_MAPS[0] = False
     return judge(r, _rng(inp.get("seed", 0), r), inp.get("n", 6)) is not None
 
 
@@ -148,6 +157,23 @@ def check(run):
         cases += 1
         if bad:
             (marker_fails if has_marker(r) else fails).append(({"kind": "variants", "reaction": r, "seed": run.seed, "n": nvar}, bad))
+    # the same with atom-map removal switched off (Balancer.remove_aam = False): mapped and unmapped spellings must still agree
+    aam_pool = list(BASE[:10]) + ["OCCO.[Na].[Na]>>[O-]CC[O-].[Na+].[Na+]", "CCO.CCO.[K].[K]>>CC[O-].CC[O-].[K+].[K+]", "OCCCO.[Li].[Li]>>[O-]CCC[O-].[Li+].[Li+]",
+                                   "CC(C)O.[Na]>>CC(C)[O-].[Na+]"]
+    aam_fails, aam_cases = [], 0
+    for r in aam_pool:
+        aam_cases += 1
+        FORCE_MAPS[0] = True   # every molecule of every variant carries atom maps (the base spelling carries none)
+        try:
+            bad = judge(r, _rng(run.seed, "aam|" + r), 4, remove_aam=False)
+        except Exception as e:
+            bad = "raised %r" % (e,)
+        finally:
+            FORCE_MAPS[0] = False
+        if bad:
+            aam_fails.append(({"kind": "variants-keep-maps", "reaction": r, "seed": run.seed}, "remove_aam=False: " + bad))
+    run.bounded("rewritings-with-atom-maps-kept", "%d reactions (alkali-metal alkoxide formations included) against mapped / reordered rewritings with Balancer.remove_aam = False"
+                % len(aam_pool), aam_cases, len(aam_pool), aam_fails[:4], False)
     run.bounded("marker-like-molecules", "reactions that contain molecules whose text contains the pipeline's marker substrings", 0, 0, marker_fails[:1], False)
     run.bounded("rewritings", "%d constructed reactions (repeated molecules included) + %d corpus reactions, each against 5-12 random rewritings"
                 % (len(BASE), len(pool) - len(BASE)), cases, len(set(pool)), fails[:6], False, [{"reaction": BASE[4], "variant": variant(BASE[4], rnd)}])
